@@ -8,6 +8,9 @@ translator:     harness/translate_xhtml.py -> lean/OdfModel/Generated/XhtmlDispa
 correspondence: every generated document is SAVED with odfpy, converted from the file by the real converters, and the
                 loaded tree is sent to drv_xhtml: rendered model output == real XHTML string (CSS text cut out), model tokens
                 == expat tokens of the real output, model MoinMoin string == real MoinMoin string
+routes:         A = the document built and saved with odfpy; B (corpus + every third document) = the package written by the
+                harness's own serialiser (c18gen.Ser: indented between block elements, other namespace prefixes), so that load()
+                and the converters see XML the library did not write
 oracle:         (independent of the model; c18gen.visible reads the DESCRIPTION of the document, not odfpy's tree)
                 no exception (XHTML css on/off, MoinMoin for text documents); output parses with expat; every visible text
                 run occurs completely and in document order (note bodies may move to the end); text:s/tab/line-break still
@@ -271,26 +274,44 @@ class Workdir(object):
 EXT = {'text': 'odt', 'sheet': 'ods', 'pres': 'odp'}
 
 
-def convert_all(spec, wd):
-    """build + save the document, run the real converters on the FILE"""
+def convert_paths(xpath, mpath):
+    """run the real converters on package files"""
     from odf.odf2xhtml import ODF2XHTML
     from odf.odf2moinmoin import ODF2MoinMoin
-    doc = c18gen.build(spec)
-    path = wd.path(EXT[spec['kind']])
-    doc.save(path)
-    res = {'path': path}
+    res = {'path': xpath}
     for css in (True, False):
         key = 'x1' if css else 'x0'
         try:
-            res[key] = ('ok', ODF2XHTML(generate_css=css).odf2xhtml(path))
+            res[key] = ('ok', ODF2XHTML(generate_css=css).odf2xhtml(xpath))
         except Exception as e:
             res[key] = ('exc', type(e).__name__, str(e)[:120])
-    if spec['kind'] == 'text':
+    if mpath is not None:
+        res['mpath'] = mpath
         try:
-            res['m'] = ('ok', ODF2MoinMoin(path).toString())
+            res['m'] = ('ok', ODF2MoinMoin(mpath).toString())
         except Exception as e:
             res['m'] = ('exc', type(e).__name__, str(e)[:120])
     return res
+
+
+def convert_all(spec, wd):
+    """route A: build the document with odfpy, save it, run the real converters on the FILE"""
+    doc = c18gen.build(spec)
+    path = wd.path(EXT[spec['kind']])
+    doc.save(path)
+    return convert_paths(path, path if spec['kind'] == 'text' else None)
+
+
+def convert_own(spec, wd, pretty_moin=False):
+    """route B: the package written by the harness's own serialiser - pretty-printed between block elements, other
+       namespace prefixes (XHTML; ODF2MoinMoin looks elements up by the usual prefixes and gets those, indented if pretty_moin)"""
+    xpath = wd.path(EXT[spec['kind']])
+    c18gen.write_package(spec, xpath, alt=True, pretty=True)
+    mpath = None
+    if spec['kind'] == 'text':
+        mpath = wd.path(EXT[spec['kind']])
+        c18gen.write_package(spec, mpath, alt=False, pretty=pretty_moin)
+    return convert_paths(xpath, mpath)
 
 
 def oracle(spec, res, neutral_res):
@@ -402,6 +423,15 @@ def check_spec(spec, wd):
     return res, nres, oracle(spec, res, nres)
 
 
+def check_own(spec, wd, pretty_moin=False):
+    """route B for one description: [(signature, detail)] and the conversion results"""
+    res = convert_own(spec, wd, pretty_moin)
+    fails = []
+    for sig, detail in oracle(spec, res, {}):
+        fails.append((sig, 'own serialiser%s: %s' % (' (indented for MoinMoin)' if pretty_moin else '', detail)))
+    return res, fails
+
+
 def run(chk, replay=None):
     chk.rule = ('seeded documents over the supported vocabulary (p, h with/without level, span, a, nested lists, tables with spans, '
                 'frames with text boxes / images, notes, s/tab/line-break, bookmarks, sections, dc/meta), depth <= 5, as text, spreadsheet '
@@ -415,6 +445,9 @@ def run(chk, replay=None):
             for k in ('x1', 'x0', 'm'):
                 if k in res:
                     print('replay %s: %s' % (k, (res[k][1][:3000] if res[k][0] == 'ok' else res[k])))
+            for pm in (False, True):
+                resb, failsb = check_own(spec, wd, pm)
+                fails = fails + failsb
             known = set(k['sig'] for k in chk.known)
             bad = [f for f in fails if f[0] not in known or f[0] == replay.get('signature')]
             for f in fails:
@@ -450,7 +483,7 @@ def corr_lines(res, default_styles):
         out.append((key, 'xhtml %s %s %s' % ('1' if key == 'x1' else '0', enc_str(css), tree)))
     if 'm' in res:
         import zipfile
-        z = zipfile.ZipFile(res['path'])
+        z = zipfile.ZipFile(res.get('mpath') or res['path'])
         out.append(('m', 'moin %s %s' % (wire_member(z.read('styles.xml')), wire_member(z.read('content.xml')))))
         z.close()
     return out
@@ -521,7 +554,7 @@ def run_main(chk, wd):
     for spec, g in gen_specs(chk):
         specs.append((spec, g, None))
     pending = []
-    for spec, g, name in specs:
+    for ndoc, (spec, g, name) in enumerate(specs):
         res, nres, fails = check_spec(spec, wd)
         blob = json.dumps(spec, sort_keys=True)
         adv = any(c in blob for c in (u'<', u'&', u']]>'))
@@ -537,8 +570,17 @@ def run_main(chk, wd):
                 chk.count('conv_%s_%s' % (k, res[k][0]))
         for sig, detail in fails:
             chk.fail(sig, {'spec': spec}, detail)
-        # 3 correspondence requests (the adversarial document and its neutralised twin)
-        for sp, r in ((spec, res),) + (((c18gen.neutral(spec), nres),) if (nres is not res and 'path' in nres) else ()):
+        routes = ((spec, res),) + (((c18gen.neutral(spec), nres),) if (nres is not res and 'path' in nres) else ())
+        # route B: every third document (and the whole corpus) also goes through the harness's own serialiser
+        if g is None or ndoc % 3 == 0:
+            pm = g is None or chk.rng.random() < 0.7        # MoinMoin gets the indented package too (repair 2b96491)
+            resb, failsb = check_own(spec, wd, pm)
+            chk.count('own_serialiser_docs'); chk.count('own_serialiser_moin_indented', 1 if pm else 0)
+            for sig, detail in failsb:
+                chk.fail(sig, {'spec': spec, 'route': 'own-serialiser'}, detail)
+            routes = routes + ((spec, resb),)
+        # 3 correspondence requests (the adversarial document, its neutralised twin, the own-serialiser package)
+        for sp, r in routes:
             for key, line in corr_lines(r, default_styles):
                 pending.append((sp, r, key, line))
     chk.notes.append('oracle phase %.1fs' % (time.time() - t0))
